@@ -103,7 +103,8 @@ def exec_i2s(ctx, invs, count, nmin, nmax, nres=8, dispatches=3, extra=(), paral
                                "--nmax", nmax, "--nres", nres, "--dispatches", dispatches, "--out", out] + list(extra),
                  parallel=parallel)
     ctx.cov["impl_runs"].append({"kind": "impl->spec recorded real dispatches", "programs": st["programs"],
-                                 "dispatches": st["dispatches"], "systems": st["systems"], "events": st["events"],
+                                 "dispatches": st["dispatches"], "systems": st["systems"],
+                                 "of_which_zero_sized_types": st.get("zero_sized_systems", 0), "events": st["events"],
                                  "max_systems_held_inside_run_at_once": st["max_held"], "controller_releases": st["releases"],
                                  "panicking_dispatches": st["panicking_dispatches"], "parallel_feature": parallel,
                                  "args": [str(x) for x in extra]})
